@@ -517,6 +517,63 @@ def run_env(chk, drv, model, ncases):
     if cases:
         chk.sample(dict(kind="env", line=lines[-5], child_envp=[x.decode("latin1") for x in (meta[-1][1] if meta else [])][:12]))
 
+# ------------------------------------------------------------------ thorough only: the same runs under ThreadSanitizer
+import re
+
+def tsan_reports(err):
+    """-> list of (key, first lines) for every ThreadSanitizer report in a stderr text"""
+    out = []
+    for blk in err.split("==================")[0:]:
+        m = re.search(r"WARNING: ThreadSanitizer: ([^\n(]+)", blk)
+        if not m:
+            continue
+        kind = m.group(1).strip().replace(" ", "-")
+        frames = []
+        for sect in re.split(r"\n\s*\n", blk):
+            f = re.search(r"/repo/(?:lib|include)/\S*?([A-Za-z0-9_]+\.(?:cpp|h)):(\d+)", sect)
+            if f:
+                frames.append("%s.%s" % (f.group(1).split(".")[0], f.group(2)))
+        key = "tsan-%s-%s" % (kind, "+".join(sorted(set(frames))[:3]) or "driver-only")
+        out.append((key, "\n".join(blk.strip().splitlines()[:14])))
+    return out
+
+def run_tsan(chk, tmp):
+    drv = vlib.build_drivers(["queue_driver"], "tsan")["queue_driver"]
+    E = dict(drv_env()); E["TSAN_OPTIONS"] = "halt_on_error=0 exitcode=0 report_signal_unsafe=0"
+    rng = chk.rng
+    flag = os.path.join(tmp, "tsan-released.flag")
+    rel = ("printf 'llbuild.1\\n%%s\\n' \"$LLBUILD_TASK_ID\" >&$LLBUILD_CONTROL_FD; i=0; while [ ! -e %s ] && [ $i -lt 1000 ]; do sleep 0.01; i=$((i+1)); done; echo got") % flag
+    groups = []   # (name, [lines]) each group = one driver process
+    scs = list(CORPUS) + [gen_scenario(rng) for _ in range(240)]
+    for i in range(0, len(scs), 35):
+        groups.append(("queue-mixes-%d" % (i // 35), [scenario_line(x) for x in scs[i:i + 35]]))
+    groups.append(("lane-release", [proc_line(1, -1, None, [proc_job(sh_argv(rel, "/bin/bash"), control=True), proc_job(sh_argv("echo j1; : > %s" % flag))])]))
+    groups.append(("lane-release-many", [proc_line(2, -1, None, [proc_job(sh_argv("printf 'llbuild.1\\n%s\\n' \"$LLBUILD_TASK_ID\" >&$LLBUILD_CONTROL_FD; sleep 0.05; echo r", "/bin/bash"), control=True) for _ in range(6)])]))
+    groups.append(("cancel-running", [proc_line(2, 20000, None, [proc_job(sh_argv("sleep 30")) for _ in range(5)])]))
+    groups.append(("parallel-output", [proc_line(4, -1, None, [proc_job(sh_argv("yes 0123456789abcdef | head -c %d" % n), control=(n % 2 == 0)) for n in (70000, 140000, 99999, 4096)])]))
+    groups.append(("spawn-errors", [proc_line(3, -1, None, [proc_job([b"/nonexistent/x"]), proc_job(sh_argv("exit 3")), proc_job([b"/etc/passwd"])])]))
+    nrep = 0
+    for name, lines in groups:
+        rc, out, err = vlib.run_lines(drv, lines, timeout=900, env=E)
+        chk.count(("tsan", name))
+        if rc != 0 or len(out) != len(lines):
+            chk.violation("tsan-run-crash", "the ThreadSanitizer build of the driver crashed or hung in group %s (rc=%s)" % (name, rc),
+                          dict(kind="tsan", group=name, line=lines[min(len(out), len(lines) - 1)], stderr=err[-3000:]), found_input=True, broken="c16 oracle: run completes (tsan build)")
+            continue
+        for key, head in tsan_reports(err):
+            nrep += 1
+            line = lines[0]
+            if len(lines) > 1:      # find one line of the group that reproduces it on its own
+                for l in lines:
+                    rc1, o1, e1 = vlib.run_lines(drv, [l], timeout=300, env=E)
+                    if any(k == key for k, _ in tsan_reports(e1)):
+                        line = l
+                        break
+            chk.violation(key, "ThreadSanitizer: %s (group %s)" % (key, name), dict(kind="tsan", group=name, line=line, report=head, variant="tsan"),
+                          found_input=True, broken="c16 oracle: no data race / use after free between queue threads (tsan build)")
+    chk.cov["tsan_groups"] = len(groups)
+    chk.cov["tsan_reports"] = nrep
+
 # ------------------------------------------------------------------ entry points
 def run(chk):
     T = {}
@@ -571,7 +628,10 @@ def run(chk):
     run_children(chk, drv, model, tmp)
     T["children"] = round(time.time() - t0, 1); t0 = time.time()
     run_env(chk, drv, model, chk.n(60, 1500))
-    T["environment"] = round(time.time() - t0, 1)
+    T["environment"] = round(time.time() - t0, 1); t0 = time.time()
+    if not chk.quick():
+        run_tsan(chk, tmp)
+        T["tsan"] = round(time.time() - t0, 1)
     chk.cov["phase_wall_s"] = T
     shutil.rmtree(tmp, ignore_errors=True)
 
@@ -596,10 +656,16 @@ def run(chk):
 
 def replay(chk, rp):
     print(json.dumps({k: v for k, v in rp.items() if k not in ("answer",)}, indent=1)[:6000])
-    drv = vlib.build_drivers(["queue_driver"])["queue_driver"]
+    variant = rp.get("variant", "hooks")
+    drv = vlib.build_drivers(["queue_driver"], variant)["queue_driver"]
     line = rp.get("scenario") or rp.get("line")
+    E = dict(drv_env())
+    if variant == "tsan":
+        E["TSAN_OPTIONS"] = "halt_on_error=0 exitcode=0 report_signal_unsafe=0"
     if line:
         for i in range(5):
-            rc, out, err = vlib.run_lines(drv, [line], timeout=300, env=drv_env())
+            rc, out, err = vlib.run_lines(drv, [line], timeout=300, env=E)
             print("replay run %d: rc=%s %s" % (i, rc, (out[0] if out else err)[:2000]))
+            for key, head in (tsan_reports(err) if variant == "tsan" else []):
+                print("  " + key + "\n" + head)
     return run(chk)
